@@ -246,3 +246,11 @@ SUBS = [
     Sub("mean", check_mean, int_case(), nontrivial=nontrivial, quick=500, thorough=3000),
     Sub("linear-translate", check_linear, int_case(), nontrivial=nontrivial, quick=300, thorough=2000),
 ]
+
+
+# objects with a history (reads that may fill caches, in-place writes): observables equal those of a fresh object
+from pbt import aged as _aged  # noqa: E402
+
+SUBS.append(_aged.sub("C06", quick=120))
+ASSUMPTIONS = list(ASSUMPTIONS) + ["aged sub-property: library results are a function of the public primary state "
+                                   "(corners, n, names, units, bc, subregions, array, validity, labels, mapping, unit)"]
